@@ -950,6 +950,10 @@ class BlockwiseRequest(BaseUnicastRequest, interfaces.Request):
             if (
                 app_request.opt.block1 is not None
                 or len(app_request.payload) > fragmentation_threshold
+                # A transfer that has been started goes on in blocks, also
+                # when the remote's limits have grown meanwhile (as they do
+                # when the peer's CSM arrives on a fresh connection)
+                or block_cursor > 0
             ):
                 current_block1 = app_request._extract_block(
                     block_cursor, size_exp, app_request.remote.maximum_payload_size
